@@ -33,6 +33,7 @@ func (e *Engine) GenUnit(fn *ssa.Function) (u *Unit) {
 	}()
 	if fc != nil && fc.Flags["safety"] == "on" || e.ForceSafety {
 		g.safety = true
+		u.Safety = true
 	}
 	if fc != nil {
 		if why, trusted := fc.Flags["trusted"]; trusted {
@@ -64,13 +65,17 @@ func (e *Engine) GenUnit(fn *ssa.Function) (u *Unit) {
 		bindTerms = append(bindTerms, name)
 	}
 	for i, fv := range fn.FreeVars {
+		if capturedCell(fn, i) {
+			g.assume(fmt.Sprintf("(not (= %s 0))", g.vals[fv])) // the address of a captured variable is never nil
+		}
 		if stableCaptured(fn, i) {
 			g.protectCell(g.vals[fv], fv.Type().Underlying().(*types.Pointer).Elem(), true) // assigned once before capture: no callee can change it
 		}
 	}
-	if g.safety && fn.Signature.Recv() != nil && len(argTerms) > 0 {
+	if fn.Signature.Recv() != nil && len(argTerms) > 0 {
 		if _, isPtr := fn.Signature.Recv().Type().Underlying().(*types.Pointer); isPtr {
-			// panic-freedom is modular: a method may assume its receiver, every call site proves it (safe/nil(receiver ...))
+			// panic-freedom is modular: a method may assume its receiver; with safety on every call site proves it
+			// (safe/nil(receiver ...)), without it the absence of nil dereferences is the stated blanket assumption
 			g.assume(fmt.Sprintf("(not (= %s 0))", argTerms[0]))
 		}
 	}
@@ -81,6 +86,13 @@ func (e *Engine) GenUnit(fn *ssa.Function) (u *Unit) {
 		fc = &FuncContract{Pkg: pkgPathOf(fn), Key: fn.Name(), Loops: map[string][]Clause{}, Flags: map[string]string{}}
 	}
 	g.entryEnv = g.contractEnv(fc, fn, sig, argTerms, bindTerms, nil, g.old0, nil)
+	if fc.Flags["foreach"] != "" {
+		if mv, ok := g.foreachEntryMap(); ok {
+			ks := g.s.sortOf(mv.typ.Underlying().(*types.Map).Key())
+			g.stateVar(feCalls, fmt.Sprintf("(Array %s Int)", ks))
+			g.emit(fmt.Sprintf("(assert (= %s ((as const (Array %s Int)) 0)))", g.base(feCalls), ks))
+		}
+	}
 	// receiver / pointer parameters of a type with a type invariant: assumed at entry
 	g.assumeTypeInvs(fn, argTerms)
 	// invariants over the package variables of the function's package hold at every entry
@@ -157,6 +169,7 @@ func closureWrites(fn *ssa.Function, cell *ssa.Alloc, mc *ssa.MakeClosure) bool 
 func (g *vcgen) assumeTypeInvs(fn *ssa.Function, args []string) {
 	for i, p := range fn.Params {
 		g.assumeTypeInvOn(args[i], p.Type())
+		g.assumeEmbeddedTypeInvs(args[i], p.Type(), 0)
 	}
 }
 
@@ -200,6 +213,35 @@ func (g *vcgen) assumeTypeInvOn(obj string, t types.Type) {
 	}
 	for _, tm := range g.typeInvTerms(ti, obj, t, g.st) {
 		g.assume(fmt.Sprintf("(=> (not (= %s 0)) %s)", obj, tm))
+	}
+}
+
+// assumeEmbeddedTypeInvs: the by-value struct fields of *obj whose type has an invariant satisfy it as well (visible-state
+// semantics: such a part is modified only through its own methods, which re-establish it, or by direct field stores,
+// which oblige the storing function)
+func (g *vcgen) assumeEmbeddedTypeInvs(obj string, t types.Type, depth int) {
+	pt, ok := t.Underlying().(*types.Pointer)
+	if !ok || depth > 2 {
+		return
+	}
+	st, ok := pt.Elem().Underlying().(*types.Struct)
+	if !ok {
+		return
+	}
+	for i := 0; i < st.NumFields(); i++ {
+		f := st.Field(i)
+		if _, isS := f.Type().Underlying().(*types.Struct); !isS {
+			continue
+		}
+		fpt := types.NewPointer(f.Type())
+		ti := g.typeInvOf(fpt)
+		addr := ""
+		if ti != nil {
+			addr = g.emb(pt.Elem(), f.Name(), obj)
+			for _, tm := range g.typeInvTerms(ti, addr, fpt, g.st) {
+				g.assume(fmt.Sprintf("(=> (not (= %s 0)) %s)", obj, tm))
+			}
+		}
 	}
 }
 
@@ -684,6 +726,9 @@ func (g *vcgen) exit(fc *FuncContract, sig *types.Signature, args, binds []strin
 		results = append(results, g.define("result", g.s.sortOf(sig.Results().At(k).Type()), term))
 	}
 	g.exitRes = results
+	if fc.Flags["foreach"] != "" {
+		g.foreachExit()
+	}
 	env := g.contractEnv(fc, g.fn, sig, args, binds, results, g.st, g.oldView(g.st))
 	// parameters keep their entry values in postconditions (Go parameters are local copies)
 	for i, e := range fc.Ensures {
@@ -754,21 +799,47 @@ func (g *vcgen) exit(fc *FuncContract, sig *types.Signature, args, binds []strin
 				continue
 			}
 			ti := g.typeInvOf(al.Type())
-			if ti == nil {
-				continue
-			}
 			ref, ok := g.vals[al]
 			if !ok {
 				continue
 			}
 			savedPC := g.pc
 			g.pc = g.define("pc", "Bool", fmt.Sprintf("(and %s %s)", g.pc, g.reach[b]))
-			for k, tm := range g.typeInvTerms(ti, ref, al.Type(), g.st) {
-				g.oblige("typeinv", fmt.Sprintf("%s:%d@new", ti.Type, k), tm, ti.Clauses[k].Src)
+			if ti != nil {
+				for k, tm := range g.typeInvTerms(ti, ref, al.Type(), g.st) {
+					g.oblige("typeinv", fmt.Sprintf("%s:%d@new", ti.Type, k), tm, ti.Clauses[k].Src)
+				}
+			}
+			// the by-value struct parts of the new object that have an invariant of their own
+			if st, isS := al.Type().Underlying().(*types.Pointer).Elem().Underlying().(*types.Struct); isS {
+				for fi := 0; fi < st.NumFields(); fi++ {
+					f := st.Field(fi)
+					if _, fs := f.Type().Underlying().(*types.Struct); !fs {
+						continue
+					}
+					fpt := types.NewPointer(f.Type())
+					if fti := g.typeInvOf(fpt); fti != nil {
+						addr := g.emb(al.Type().Underlying().(*types.Pointer).Elem(), f.Name(), ref)
+						for k, tm := range g.typeInvTerms(fti, addr, fpt, g.st) {
+							g.oblige("typeinv", fmt.Sprintf("%s:%d@new.%s", fti.Type, k, f.Name()), tm, fti.Clauses[k].Src)
+						}
+					}
+				}
 			}
 			g.pc = savedPC
 		}
 	}
+}
+
+func (g *vcgen) allocatesType(t types.Type) bool {
+	for _, b := range g.fn.Blocks {
+		for _, ins := range b.Instrs {
+			if al, ok := ins.(*ssa.Alloc); ok && sameStruct(al.Type(), t) {
+				return true
+			}
+		}
+	}
+	return false
 }
 
 func (g *vcgen) storesToType(t types.Type) bool {
@@ -776,6 +847,21 @@ func (g *vcgen) storesToType(t types.Type) bool {
 		for _, ins := range b.Instrs {
 			if st, ok := ins.(*ssa.Store); ok {
 				if fa, ok := st.Addr.(*ssa.FieldAddr); ok && sameStruct(fa.X.Type(), t) {
+					return true
+				}
+			}
+			// an update of a map held in a field of the type (the invariant may speak about the map's contents)
+			var mv ssa.Value
+			switch x := ins.(type) {
+			case *ssa.MapUpdate:
+				mv = x.Map
+			case *ssa.Call:
+				if b, ok := x.Call.Value.(*ssa.Builtin); ok && b.Name() == "delete" && len(x.Call.Args) > 0 {
+					mv = x.Call.Args[0]
+				}
+			}
+			if ld, ok := mv.(*ssa.UnOp); ok && ld.Op == token.MUL {
+				if fa, ok := ld.X.(*ssa.FieldAddr); ok && sameStruct(fa.X.Type(), t) {
 					return true
 				}
 			}
